@@ -1027,6 +1027,39 @@ pub fn run(ctx: &mut Ctx) {
                             }
                         }
                     }
+                    // C21 / C18-C20: what a block alternate removes is gone — special-mode probes on the removed construct itself or on
+                    // a construct inside it must not reach the output (their `before` / `after` lists are a different matter: the code
+                    // keeps those, and the property's quantifier leaves other modes outside the replaced region)
+                    if alts.len() == 1 {
+                        let idx = match alts[0] {
+                            Step::At { idx, .. } | Step::InjectAt { idx, .. } | Step::AddAt { idx, .. } | Step::EmptyBlockAlt { idx } => *idx,
+                            _ => unreachable!(),
+                        };
+                        let withdrawn = plan.iter().any(|s| matches!(s, Step::ClearAt { idx: i, mode: 6 } if *i == idx));
+                        if let (false, true, Some(e)) = (withdrawn, is_block_style(&toks[idx]), match_end(&toks, idx)) {
+                            // for an `else` the region is the arm (the `end` stays); otherwise the construct with its `end`
+                            let hi = if toks[idx] == "else" { e } else { e + 1 };
+                            for st in &plan {
+                                if let Step::At { idx: i, mode, probes } | Step::InjectAt { idx: i, mode, probes } | Step::AddAt { idx: i, mode, probes } = st {
+                                    if (3..=5).contains(mode) && *i >= idx && *i < hi {
+                                        for p in probes {
+                                            if out.contains(&format!("i32.const:{p}")) {
+                                                fails.push((
+                                                    match *mode {
+                                                        3 => "C20,C21",
+                                                        4 => "C18,C21",
+                                                        _ => "C19,C21",
+                                                    },
+                                                    format!("{}-probe-of-removed-construct-emitted", MODES[*mode].0),
+                                                    format!("probe {p} at {i} ({}) is in the output although the block alternate at {idx} removes it", toks[*i]),
+                                                ));
+                                            }
+                                        }
+                                    }
+                                }
+                            }
+                        }
+                    }
                     if alts.len() == 1 && plan.len() == 1 {
                         let (idx, repl) = match alts[0] {
                             Step::At { idx, probes, .. } | Step::InjectAt { idx, probes, .. } | Step::AddAt { idx, probes, .. } => (*idx, probes_tokens(probes)),
